@@ -5,7 +5,7 @@ from . import _hist
 LEVEL = "exploration"
 SHARDS = {"quick": 8, "thorough": 16}
 BUDGET = {"quick": 18, "thorough": 200}
-RULE = ("same history workloads as C01 (EX1/EX2/RND/STRESS; several pairs sharing event instants, undirected "
+RULE = ("same history workloads as C01 (EX1/EX2/RND/STRESS/PASSIVE; several pairs sharing event instants, undirected "
         "pairs given in either endpoint order); after every accepted call list(stream_interactions()) is checked "
         "offline: chronological, no repeated (pair,op,t), '+' events == run starts of the model's presence, every "
         "'-'@t has t-1 present and t absent, every run longer than one instant closed at end+1, and a 10-line "
@@ -15,20 +15,68 @@ MIN = {"quick": {"stream:replay==presence": 20000, "stream:plus==run-starts": 20
        "thorough": {"stream:replay==presence": 400000, "stream:plus==run-starts": 400000}}
 REQUIRED_CELLS = {t: ("rp:adjacent/point/onto-point", "rp:overlap/interval/onto-interval",
                       "rp:overlap@start/interval/onto-point", "rp:contained/interval/onto-interval",
-                      "rp:duplicate/interval/onto-point") for t in ("quick", "thorough")}
+                      "rp:duplicate/interval/onto-point", "derived-later:time_slice", "derived-later:to_directed",
+                      "derived-later:to_undirected") for t in ("quick", "thorough")}
 
 
 def battery(ctx, dn, G, m):
     audit.audit_stream(ctx, dn, G, m)
 
 
+def derived_later(ctx, dn):
+    """the stream of a derived graph (slice, conversion) is a faithful log when it is created AND still after
+    its source has been updated (a shared interval list would let presence grow under an unchanged log)"""
+    from .. import driver, gen
+    from ..guard import guarded
+    from ..model import Model
+    from . import c06, c16
+    rng = ctx.rng
+    directed = rng.random() < 0.5
+    prog, fam = gen.random_program(rng, lambda: Model(directed, True), directed=directed, with_nodes=False, p_big=0)
+    G, m, ok = driver.build_accepted(dn, prog, directed)
+    if not ok or not m.nontrivial():
+        return
+    ctx.cases += 1
+    ctx.case = dict(workload="DERIVED-LATER", directed=directed, program=prog)
+    ids = m.ids()
+    made = [("time_slice", G.time_slice(ids[0] - 1, ids[-1] + 1), c06.slice_model(m, ids[0] - 1, ids[-1] + 1))]
+    if directed:
+        made.append(("to_undirected", G.to_undirected(), c16.und_model(m, False)))
+    else:
+        H = G.to_directed()
+        both, single = c16.dir_model(m, list(G.nodes()), False), c16.dir_model(m, list(G.nodes()), True)
+        made.append(("to_directed", H, both if c16.presence_matches(H, both, both.window(1)) else single))
+    c16.grow(ctx, G)
+    for name, H, h in made:
+        ctx.case["constructor"] = name
+        ctx.cell("derived-later:" + name)
+        guarded(ctx, "derived-later", audit.audit_stream, ctx, dn, H, h, "derived-later:")
+
+
+def passive_battery(ctx, dn, G, m):
+    # graphs built by the repository's own tests (removal-enabled ones; accumulative ones belong to C08)
+    if m.removal:
+        battery(ctx, dn, G, m)
+
+
 def run(ctx, dn):
+    if ctx.shard == 0:
+        from .. import passive
+        ctx.notes["passive_graphs"] = passive.run(ctx, dn, passive_battery)
     if ctx.tier == "quick":
         _hist.exhaustive(ctx, dn, battery, 2, two_pairs_len=2)
-        _hist.random_histories(ctx, dn, battery, until=3)
+        _hist.second_life(ctx, dn, battery, 6)
+        _hist.long_timelines(ctx, dn, battery, 4)
+        _hist.random_histories(ctx, dn, battery, until=3, clears=True)
         _hist.stress(ctx, dn, battery, 1500, every=100)
+        for _ in range(40):
+            derived_later(ctx, dn)
     else:
         _hist.exhaustive(ctx, dn, battery, 3, two_pairs_len=3)
-        _hist.random_histories(ctx, dn, battery, until=25)
+        _hist.second_life(ctx, dn, battery, 60)
+        _hist.long_timelines(ctx, dn, battery, 40)
+        _hist.random_histories(ctx, dn, battery, until=25, clears=True)
         for _ in range(3):
             _hist.stress(ctx, dn, battery, 6000, every=200)
+        for _ in range(600):
+            derived_later(ctx, dn)
